@@ -311,6 +311,15 @@ class CArr:
             self.base.writes += 1
         return self
 
+    def __getitem__(self, key):
+        """image `key` of the per-image transform of a stack (fft2 over the last two axes acts per image, A5): the transform of
+        that image.  Every other subscript of a structural complex array is unsupported by this model (TypeError path, as before)."""
+        if self.expr[0] == "fft2" and len(self.shape) == 3 and getattr(self, "c13_stack", False) and isinstance(key, (int, Sym)) and not isinstance(key, bool):
+            c = CArr(self.shape[1:], ("fft2", slab_name(self.expr[1], key)))
+            c.c13_id = lift(key)
+            return c
+        raise TypeError("subscript of a structural complex array")
+
     # -- views / conversions
     @property
     def real(self):
@@ -339,6 +348,11 @@ class CArr:
         if self.expr[0] != "ramp":
             raise OutOfSubset("not a unit-modulus array")
         return S(self.elem(*[lift(i) for i in idx])[1])
+
+
+def slab_name(stack_name, i):
+    """name of image i of a named stack (identifies the image inside structural terms)."""
+    return f"{stack_name}[{z3.simplify(lift(i)).sexpr()}]"
 
 
 def real_part(c):
@@ -449,7 +463,18 @@ def install(reg):
 
     # ---- attributes of symbolic scalars / arrays that torch / numpy scalars and tensors have
     def sym_attr(interp, base, name):
-        if name in ("to", "long", "float", "double", "cpu", "detach", "clone"):
+        if name == "long" or name == "int":
+            # tensor.long(): conversion to a 64-bit integer (truncation toward zero; exact for integral values)
+            return _sym_ok(lambda *a, **k: M[int](interp, base))
+        if name == "to":
+            # tensor.to(dtype): an INTEGER dtype converts the value to an integer (truncation), every other argument keeps it
+            def _to(*a, **k):
+                dt = k.get("dtype", next((x for x in a if isinstance(x, torch.dtype)), None))
+                if dt in (torch.long, torch.int64, torch.int32, torch.int16, torch.int8):
+                    return M[int](interp, base)
+                return base
+            return _sym_ok(_to)
+        if name in ("float", "double", "cpu", "detach", "clone"):
             return _sym_ok(lambda *a, **k: base)
         if name == "astype":
             return _sym_ok(lambda t, *a, **k: M[int](interp, base) if t in (int, np.int64, np.int32, "int") else base)
@@ -499,11 +524,33 @@ def install(reg):
             base.fn = lambda *idx: ite(lift(kf(*idx)), v, old(*idx))
             base.writes += 1
             return True
+        if (base.ndim == 2 and isinstance(key, (int, Sym)) and not isinstance(key, bool) and isinstance(v, SymArr) and v.ndim == 1
+                and V.dims_equal(v.shape[0], base.shape[1]) and base.base is base):
+            # row assignment  a[i] = vector  (functional update of row i; i must be a valid row index)
+            i = SymArr._norm_index(None, key, base.shape[0])
+            old, vf = base.fn, v.fn
+            base.fn = lambda a, b, _i=lift(i): ite(lift(a) == _i, vf(b), old(a, b))
+            base.writes += 1
+            return True
         if prev_set is not None:
             return prev_set(interp, base, key, v)
         return NotImplemented
 
     reg.setitem_models[SymArr] = arr_setitem
+
+    prev_stack = M.get(torch.stack)
+
+    def m_stack0(interp, xs, dim=0):
+        xs = list(xs)
+        if xs and dim == 0 and all(isinstance(x, (Sym, int, float)) and not isinstance(x, bool) for x in xs) and any(isinstance(x, Sym) for x in xs):
+            r = V.from_list(xs, kind="real", pylist=False)   # stack of 0-d tensors: the vector of their values
+            r.as_type = torch.Tensor
+            return r
+        if prev_stack is not None:
+            return prev_stack(interp, xs, dim=dim)
+        return interp.native(torch.stack, xs, dim=dim)
+
+    M[torch.stack] = m_stack0
 
     # ---- DFT (A5: structural) ---------------------------------------------------------------------------------
     def m_fft2(interp, x, *a, **k):
@@ -511,6 +558,9 @@ def install(reg):
             nm = x.name or _uid("arr")
             c = CArr(x.shape, ("fft2", nm))
             c.src = x
+            for tag in ("c13_id", "c13_stack"):   # image identity (ghost) survives the transform
+                if hasattr(x, tag):
+                    setattr(c, tag, getattr(x, tag))
             return c
         if isinstance(x, CArr):
             return x._derive(x.shape, ("fft2c", x.expr))
@@ -759,6 +809,34 @@ def install(reg):
 
     M[np.unravel_index] = m_unravel
 
+    # ---- ghost log: 2-D slices (patches) cut out of an array that argmax has searched -------------------------------
+    prev_get = reg.getitem_models.get(SymArr)
+
+    def arr_getitem(interp, base, key):
+        r = prev_get(interp, base, key) if prev_get is not None else NotImplemented
+        if getattr(base, "c13_stack", False) and base.ndim == 3 and isinstance(key, (int, Sym)) and not isinstance(key, bool):
+            # image `key` of a named stack: a view that remembers WHICH image it is (ghost identity)
+            if r is NotImplemented:
+                r = base[key]
+            if isinstance(r, SymArr):
+                r.name = slab_name(base.name, key)
+                r.c13_id = lift(key)
+                if hasattr(base, "as_type"):
+                    r.as_type = base.as_type
+            return r
+        log = interp.ctx.ghost.get("c13_argmax", [])
+        if (isinstance(key, tuple) and len(key) == 2 and all(isinstance(k, slice) for k in key) and base.ndim == 2
+                and any(e["arr"] is base for e in log)):
+            if r is NotImplemented:
+                r = base[key]
+            b0, b1 = SymArr._slice_bounds(key[0], base.shape[0]), SymArr._slice_bounds(key[1], base.shape[1])
+            interp.ctx.ghost.setdefault("c13_patches", []).append(dict(
+                arr=base, result=r, shape=getattr(r, "shape", None), lo=(b0[0], b1[0]), step=(b0[2], b1[2]),
+                asked=((key[0].start, key[0].stop), (key[1].start, key[1].stop))))
+        return r
+
+    reg.getitem_models[SymArr] = arr_getitem
+
 
 # ------------------------------------------------------------------------------------------------
 # translation model of images (call sites of the estimators): an image is a fixed CONTENT translated by a position vector
@@ -781,6 +859,8 @@ class TImg:
 
 def ite_value(c, a, b):
     """if-then-else over the value kinds stored in abstract lists (2-vectors, translated images, scalars)."""
+    if isinstance(a, tuple) and isinstance(b, tuple) and len(a) == len(b):
+        return tuple(ite_value(c, x, y) for x, y in zip(a, b))
     if isinstance(a, TImg) and isinstance(b, TImg):
         if a.cid != b.cid:
             raise OutOfSubset("ite over images of different content")
